@@ -1,8 +1,9 @@
 """C06 at source-line granularity: two sim threads call the public methods of one real TimeController (imported on top
 of the sim threading / time modules, so its RLock is the sim lock and its raw clocks are the virtual clock); every
 'line' event inside pamiq_core/time.py and every lock operation is a scheduling point; the schedule is 'stay on the
-current thread, switch at the given choice indices'.  Real time passes only through ["adv", d] operations (a virtual
-sleep outside the lock).
+current thread, switch at the given choice indices'.  Real time passes through ["adv", d] operations (a virtual
+sleep outside the lock: nobody else is running meanwhile) and through ["tick", d] operations (the clock jumps while the other
+thread is suspended between two of its lines, anywhere outside the clock's lock).
 
 The run is reported as ONE sequential history: the operations in the order in which they took the lock, with the real
 time that passed between two consecutive ones, and the outputs observed - i.e. as an ordinary C06 case, which Coq then
@@ -99,6 +100,12 @@ def _run(case):
                         sys.settrace(None)
                         S.sim_sleep(op[1][0] / op[1][1])
                         sys.settrace(tracer)
+                        continue
+                    if k == "tick":
+                        # real time passes while the OTHER thread is suspended wherever it happens to be - but not while
+                        # somebody is inside the clock's lock (all of an operation's raw readings are taken at one instant)
+                        if tc._lock.owner is None:
+                            sched.now += op[1][0] / op[1][1]
                         continue
                     if k == "read":
                         out = ["q", fr({"T": tc.time, "P": tc.perf_counter, "M": tc.monotonic}[op[1]]())]
